@@ -1,7 +1,7 @@
 #!/bin/bash
 # usage: tools/baseline.sh <repo-dir> <out-prefix>   -- runs the pinned suite, prints summary vs BASELINE.json
 dir=${1:-/repo}; out=${2:-/tmp/baseline_$$}
-cd "$dir" && /venv/bin/python -m pytest -ra -q -p no:cacheprovider --timeout=900 --continue-on-collection-errors --junitxml=$out.xml > $out.log 2>&1
+cd "$dir" && PYTHONPATH="$dir/src" /venv/bin/python -m pytest -ra -q -p no:cacheprovider --timeout=900 --continue-on-collection-errors --junitxml=$out.xml > $out.log 2>&1
 /venv/bin/python - "$out.xml" <<'PY'
 import json, sys, xml.etree.ElementTree as ET
 base = set(json.load(open('/root/.vp/BASELINE.json'))['stable_pass'])
